@@ -834,6 +834,10 @@ func runRandom(h *harness, r *rand.Rand) {
 				cands = append(cands, a.headMax-cf.O, a.headMax-cf.O-1, a.headMax-cf.O+1, a.headMax-cf.O/2)
 			}
 			cands = append(cands, a.headMax-3*cf.R-cf.O)
+			if a.headMax > 0 {
+				// far below every window, where headMax-t no longer fits an int64
+				cands = append(cands, math.MinInt64+r.Int64N(a.headMax+2), gen.Pick(r, []int64{math.MinInt64, math.MinInt64 + a.headMax, -math.MaxInt64 / 2}))
+			}
 		}
 		cands = append(cands, clock, clock+1+int64(r.IntN(10)), clock+cf.R/2, clock+cf.R+3)
 		return cands[r.IntN(len(cands))]
